@@ -2,6 +2,7 @@
 package storage
 
 import (
+	"github.com/PowerDNS/lightningstream/utils/verifhook"
 	"sync"
 	"time"
 
@@ -21,6 +22,7 @@ func SetGlobal(st simpleblob.Interface) {
 		panic("cannot set nil storage")
 	}
 
+	verifhook.Yield("storage.set.lock", "")
 	// Critical section includes the close(ready)
 	mu.Lock()
 	defer mu.Unlock()
@@ -34,6 +36,7 @@ func SetGlobal(st simpleblob.Interface) {
 // GetGlobal retrieves the global storage set by SetGlobal.
 // It blocks until one is available.
 func GetGlobal() simpleblob.Interface {
+	verifhook.Yield("storage.get.rlock", "")
 	mu.RLock()
 	st := storage
 	mu.RUnlock()
@@ -41,9 +44,11 @@ func GetGlobal() simpleblob.Interface {
 		return st
 	}
 
+	verifhook.Yield("storage.get.wait", "")
 	// It looks like SetGlobal was not called yet
 	wait()
 
+	verifhook.Yield("storage.get.rlock2", "")
 	// Try again after wait. This time it must succeed.
 	mu.RLock()
 	st = storage
